@@ -235,12 +235,15 @@ pub struct TxRec<C: Cv> {
     /// recorded challenge scalars not yet paired with a Challenge event
     pub rng_chunks: Vec<Vec<u8>>,
     pub ext_bytes: Vec<Vec<u8>>,
+    /// RNG output calls already turned into draws; for every draw so far, the index of the last output call it consumed
+    pub chunk_base: usize,
+    pub draw_calls: Vec<usize>,
     _c: std::marker::PhantomData<C>,
 }
 
 impl<C: Cv> TxRec<C> {
     pub fn new(main: u32) -> Self {
-        TxRec { main, forks: HashMap::new(), rngs: HashMap::new(), rng_chunks: vec![], ext_bytes: vec![], _c: Default::default() }
+        TxRec { main, forks: HashMap::new(), rngs: HashMap::new(), rng_chunks: vec![], ext_bytes: vec![], chunk_base: 0, draw_calls: vec![], _c: Default::default() }
     }
     fn fork_of(&self, tid: u32) -> Option<u32> {
         if tid == self.main {
@@ -325,6 +328,7 @@ impl<C: Cv> TxRec<C> {
     /// Turn the RNG output seen so far into the scalars the prover drew (replaying arkworks' own
     /// UniformRand over the recorded chunks). None if the chunks do not parse as a whole number of draws.
     pub fn take_draws(&mut self) -> Option<Vec<Fr<C>>> {
+        let total = self.rng_chunks.len();
         let mut r = ReplayRng { chunks: std::mem::take(&mut self.rng_chunks).into(), ok: true };
         let mut out = vec![];
         while !r.chunks.is_empty() {
@@ -333,7 +337,9 @@ impl<C: Cv> TxRec<C> {
                 return None;
             }
             out.push(s);
+            self.draw_calls.push(self.chunk_base + (total - r.chunks.len()) - 1);
         }
+        self.chunk_base += total;
         Some(out)
     }
 }
@@ -964,6 +970,8 @@ pub struct ProverOut<C: Cv> {
     pub proof: Option<R1CSProof<C::G>>,
     pub next: Option<Vec<u8>>,
     pub events: Vec<Value>,
+    /// for every scalar the prover drew from its RNG (both phases, in order): the RNG output call that produced it
+    pub draw_calls: Vec<usize>,
 }
 
 /// Build a prover from `side`, prove, record.
@@ -1077,7 +1085,8 @@ pub fn run_prover<C: Cv>(
     if record {
         events.push(ev);
     }
-    ProverOut { res, proof, next, events }
+    let draw_calls = cx.tx.borrow().draw_calls.clone();
+    ProverOut { res, proof, next, events, draw_calls }
 }
 
 pub struct VerifierOut {
@@ -1182,6 +1191,123 @@ pub fn run_verifier<C: Cv>(
     VerifierOut { res, next, events }
 }
 
+fn dec_s<C: Cv>(v: &Value) -> Option<Fr<C>> {
+    if C::TOY {
+        v.as_u64().map(Fr::<C>::from)
+    } else {
+        v.as_str().and_then(|h| Fr::<C>::deserialize_compressed(&unhex(h)[..]).ok())
+    }
+}
+
+fn all_draws<C: Cv>(events: &[Value]) -> Option<Vec<Fr<C>>> {
+    let mut out = vec![];
+    for e in events {
+        if matches!(e["ev"].as_str(), Some("prove1") | Some("prove") | Some("prove2")) {
+            if e["rng_ok"] != json!(true) {
+                return None;
+            }
+            for v in e["rng"].as_array()? {
+                out.push(dec_s::<C>(v)?);
+            }
+        }
+    }
+    Some(out)
+}
+
+/// C09: which RNG draw plays which role?  Found by intervention: the k-th scalar the prover draws is disturbed (one bit of the RNG
+/// output that produced it; the sponge and every other output are untouched) and the proof is made again.  The first group of
+/// commitments that differs - (A_I1, A_O1, S1), (A_I2, A_O2, S2), (T_1 .. T_6); later ones depend on challenges derived from it - tells
+/// what the draw is used for: a difference of delta * B_blinding in a commitment makes it that commitment's blinding, delta * G_i / H_i in
+/// S1 / S2 makes it entry i of a masking vector.  A draw that moves two commitments of one group serves two roles.
+/// Returns (all draws of the undisturbed run, role list per draw) or None when the undisturbed run did not produce a proof.
+pub fn infer_roles<C: Cv>(prog: &Program, base: &ProverOut<C>) -> Option<(Vec<Fr<C>>, Vec<Vec<Value>>, bool)> {
+    let wide = wide_factor::<C>(prog);
+    let bproof = ProofM::from_real(base.proof.as_ref()?);
+    let d0 = all_draws::<C>(&base.events)?;
+    if d0.len() != base.draw_calls.len() {
+        return None;
+    }
+    let pc = make_pc::<C>(&prog.p.pc);
+    let bp = make_bp::<C>(&prog.p, "P", None);
+    let cap = bp.gens_capacity;
+    let (gv, hv): (Vec<C::G>, Vec<C::G>) = if bp.party_capacity >= 1 { (bp.G(cap, 1).cloned().collect(), bp.H(cap, 1).cloned().collect()) } else { (vec![], vec![]) };
+    let mut roles: Vec<Vec<Value>> = vec![];
+    let mut stable = true;
+    for k in 0..d0.len() {
+        let mut found: Option<(ProofM<C::G>, Fr<C>)> = None;
+        for mask in [1u8, 2, 4, 8] {
+            merlin::trace::set_rng_fault(Some((base.draw_calls[k], mask)));
+            let po = run_prover::<C>(&prog.p, prog.seed, wide, Rc::new(RefCell::new(HashMap::new())), Rc::new(RefCell::new(vec![])), true);
+            merlin::trace::set_rng_fault(None);
+            let d1 = match all_draws::<C>(&po.events) { Some(d) => d, None => continue };
+            // exactly draw k changed (a disturbed value that is rejected by the sampler would shift the whole stream)
+            if d1.len() != d0.len() || (0..d0.len()).any(|j| (j == k) != (d1[j] != d0[j])) {
+                continue;
+            }
+            if let Some(p) = &po.proof {
+                found = Some((ProofM::from_real(p), d1[k] - d0[k]));
+                break;
+            }
+        }
+        let (p1, delta) = match found {
+            Some(x) => x,
+            None => {
+                stable = false;
+                roles.push(vec![json!(["unstable", 0, 0])]);
+                continue;
+            }
+        };
+        let bb_d = (pc.B_blinding.into_group() * delta).into_affine();
+        let mut mine: Vec<Value> = vec![];
+        for group in [&[0usize, 1, 2][..], &[3, 4, 5][..], &[6, 7, 8, 9, 10][..]] {
+            for &f in group {
+                let diff = (p1.pts[f].into_group() - bproof.pts[f].into_group()).into_affine();
+                if diff.is_zero() {
+                    continue;
+                }
+                let phase = if f < 3 { 1 } else { 2 };
+                // every candidate explanation of the difference; on a small group two candidates can coincide (B~ = G_i): then the
+                // intervention does not tell the role and the run is not judged
+                let mut cands: Vec<Value> = vec![];
+                if diff == bb_d {
+                    cands.push(match f {
+                        0 | 3 => json!(["i", phase, 0]),
+                        1 | 4 => json!(["o", phase, 0]),
+                        2 | 5 => json!(["s", phase, 0]),
+                        _ => {
+                            let k = [1, 3, 4, 5, 6][f - 6];
+                            json!(["t", k, 0])
+                        }
+                    });
+                }
+                if f == 2 || f == 5 {
+                    for i in 0..cap {
+                        if diff == (gv[i].into_group() * delta).into_affine() {
+                            cands.push(json!(["sL", phase, i]));
+                        }
+                        if diff == (hv[i].into_group() * delta).into_affine() {
+                            cands.push(json!(["sR", phase, i]));
+                        }
+                    }
+                }
+                match cands.len() {
+                    0 => mine.push(json!(["other", f, 0])),
+                    1 => mine.push(cands.pop().unwrap()),
+                    _ => {
+                        stable = false;
+                        mine.push(json!(["ambiguous", f, 0]));
+                    }
+                }
+            }
+            if !mine.is_empty() {
+                break;
+            }
+        }
+        roles.push(mine);
+    }
+    Some((d0, roles, stable))
+}
+
 pub fn wide_factor<C: Cv>(prog: &Program) -> Option<Fr<C>> {
     if prog.wide {
         let mut r = ChaChaRng::seed_from_u64(prog.seed ^ 0x5157_1d3e);
@@ -1215,7 +1341,18 @@ pub fn run_program<C: Cv>(prog: &Program, record: bool) -> RunOut<C> {
     if record {
         events.push(setup_event::<C>(prog));
     }
-    let po = run_prover::<C>(&prog.p, prog.seed, wide, consts.clone(), commits.clone(), record);
+    let mut po = run_prover::<C>(&prog.p, prog.seed, wide, consts.clone(), commits.clone(), record);
+    if prog.roles && record {
+        // (no proof, no intervention: the run is then not judged on which draw plays which role)
+        let (d0, roles, stable) = infer_roles::<C>(prog, &po).unwrap_or((vec![], vec![], false));
+        for e in po.events.iter_mut() {
+            if matches!(e["ev"].as_str(), Some("prove1") | Some("prove") | Some("prove2")) {
+                e["allrng"] = Value::Array(d0.iter().map(enc_s::<C>).collect());
+                e["roles"] = json!(roles);
+                e["roles_stable"] = json!(stable);
+            }
+        }
+    }
     events.extend(po.events);
     let mut out = RunOut::<C> {
         events: vec![],
